@@ -69,13 +69,13 @@ impl CommitterKeyStream {
 //@rw 1 /powers_of_g\.reverse\(\);/ => vec_reverse_g1(&mut powers_of_g);
 //@rw 1 /self\.powers_of_g2\.clone\(\)\.to_vec\(\)/ => vec_g2_clone(&self.powers_of_g2)
 //@end
-//@fn id=streaming.space.open_multi_points file=poly-commit/src/streaming_kzg/space.rs scope="impl<E, SG> CommitterKeyStream<E, SG>" name=open_multi_points props=C14,C01
+//@fn id=streaming.space.open_multi_points file=poly-commit/src/streaming_kzg/space.rs scope="impl<E, SG> CommitterKeyStream<E, SG>" name=open_multi_points props=C14,C01,C19
     pub fn open_multi_points(&self, polynomial: &Vec<Fr>, points: &[Fr], max_msm_buffer: usize) -> (r: (Vec<Fr>, EvaluationProof))
     requires
         points@.len() >= 1, points@.len() <= polynomial@.len(), polynomial@.len() <= self.powers_of_g@.len(),      // (fewer coefficients than points, or a polynomial longer than the key: abort)
         polynomial@.len() < usize::MAX,
     ensures
-        exists|q: Seq<FS>| #[trigger] smp_rel(self, polynomial@, points@, r.0@, r.1.0@, q),   // name=streaming.space.open_multi_points.remainder_and_quotient_commitment_of_the_division_by_the_vanishing_polynomial props=C14,C01
+        exists|q: Seq<FS>| #[trigger] smp_rel(self, polynomial@, points@, r.0@, r.1.0@, q),   // name=streaming.space.open_multi_points.remainder_and_quotient_commitment_of_the_division_by_the_vanishing_polynomial props=C14,C01,C19
 //@body
 //@rw 1 /let bases_init = self\.powers_of_g\.iter\(\);/ => let bases_unused__ = 0usize;
 //@rw 1 /let mut bases = bases_init\.skip\(([^;]*)\);/ => let bases_t__ = tail_g1(&self.powers_of_g, \1); let mut bi__: usize = 0;
@@ -113,24 +113,24 @@ impl CommitterKeyStream {
         }
 //@rw 1 /\(remainder, commitment\)/ => { let res__ = (remainder, commitment); proof { assert(smp_rel(self, polynomial@, points@, res__.0@, res__.1.0@, qs)); } res__ }
 //@end
-//@fn id=streaming.space.commit file=poly-commit/src/streaming_kzg/space.rs scope="impl<E, SG> CommitterKeyStream<E, SG>" name=commit props=C14,C08
+//@fn id=streaming.space.commit file=poly-commit/src/streaming_kzg/space.rs scope="impl<E, SG> CommitterKeyStream<E, SG>" name=commit props=C14,C08,C19
     pub fn commit(&self, polynomial: &Vec<Fr>) -> (r: Commitment)
     ensures
-        polynomial@.len() <= self.powers_of_g@.len(),     // name=streaming.space.commit.polynomial_longer_than_key_aborts props=C17
+        polynomial@.len() <= self.powers_of_g@.len(),     // name=streaming.space.commit.polynomial_longer_than_key_aborts props=C17,C19
         // big-endian coefficient stream against the LAST |p| elements of the (descending) key stream
-        r.0@ == dot(g1views(self.powers_of_g@.subrange(self.powers_of_g@.len() - polynomial@.len(), self.powers_of_g@.len() as int)), fviews(polynomial@), polynomial@.len()),   // name=streaming.space.commit.value props=C14,C08
+        r.0@ == dot(g1views(self.powers_of_g@.subrange(self.powers_of_g@.len() - polynomial@.len(), self.powers_of_g@.len() as int)), fviews(polynomial@), polynomial@.len()),   // name=streaming.space.commit.value props=C14,C08,C19
 //@body
 //@rw 1 /<E::G1 as VariableBaseMSM>::msm_chunks\(&self\.powers_of_g, polynomial\)/ => msm_chunks(&self.powers_of_g, polynomial)
 //@end
-//@fn id=streaming.space.open file=poly-commit/src/streaming_kzg/space.rs scope="impl<E, SG> CommitterKeyStream<E, SG>" name=open props=C14,C01
+//@fn id=streaming.space.open file=poly-commit/src/streaming_kzg/space.rs scope="impl<E, SG> CommitterKeyStream<E, SG>" name=open props=C14,C01,C19
     pub fn open(&self, polynomial: &Vec<Fr>, alpha: &Fr, max_msm_buffer: usize) -> (r: (Fr, EvaluationProof))
     requires
         polynomial@.len() <= self.powers_of_g@.len(),     // (a longer polynomial underflows the skip count: abort)
     ensures
         // the evaluation is Horner's value over the big-endian stream, i.e. p(alpha) for the polynomial whose little-endian coefficients are the reversed stream
-        r.0@ == horner(rev(fviews(polynomial@)), alpha@, polynomial@.len()),   // name=streaming.space.open.evaluation_is_horner_over_the_stream props=C14,C01
+        r.0@ == horner(rev(fviews(polynomial@)), alpha@, polynomial@.len()),   // name=streaming.space.open.evaluation_is_horner_over_the_stream props=C14,C01,C19
         // the proof: the i-th key element of the aligned tail times the Horner value BEFORE the i-th coefficient is absorbed
-        r.1.0@ == qsum(g1views(self.powers_of_g@.subrange(self.powers_of_g@.len() - polynomial@.len(), self.powers_of_g@.len() as int)), rev(fviews(polynomial@)), alpha@, polynomial@.len()),   // name=streaming.space.open.proof_commits_to_the_horner_quotient props=C14,C01
+        r.1.0@ == qsum(g1views(self.powers_of_g@.subrange(self.powers_of_g@.len() - polynomial@.len(), self.powers_of_g@.len() as int)), rev(fviews(polynomial@)), alpha@, polynomial@.len()),   // name=streaming.space.open.proof_commits_to_the_horner_quotient props=C14,C01,C19
 //@body
 //@rw 1 /let bases_init = self\.powers_of_g\.iter\(\);/ => let bases_unused__ = 0usize;
 //@rw 1 /let bases = bases_init\.skip\(([^;]*)\);/ => let bases_t__ = tail_g1(&self.powers_of_g, \1);
